@@ -191,17 +191,60 @@ def adaptDelta (cur : PreConf) (ident : String) (txs : List WireTx) : Except Err
           txCount := cur.txCount + txs.length
           eventCount := cur.eventCount + (txs.map (·.rcpt.events)).foldl (· + ·) 0 }
 
-/-! ## the wire shape the adapters index into
+/-! ## the wire shape, its validation, and what the adapters index into
 
 `starknet.PreConfirmedBlock` / `PreConfirmedDeltaUpdate` carry three parallel slices. The adapters
 loop over the TRANSACTIONS and index the other two (`response.TransactionStateDiffs[i]`,
-`response.Receipts[i].Events`) without checking lengths or nil elements: only the feeder client's
-`PreConfirmedUpdateEnvelope.Validate` does. `WireTx` above is the well-shaped case. -/
+`response.Receipts[i].Events`) and dereference `response.L1GasPrice` without any check: their
+contract ("it is assumed that `starknet.PreConfirmedBlock` is valid") is
+`PreConfirmedUpdateEnvelope.Validate`, which every `DataSource` of juno goes through
+(`clients/feeder` `fetchPreConfirmedUpdate`). `WireTx` above is the validated case. -/
 
 structure RawUpdate where
-  txs      : List (Tx × Bool)        -- transaction, `bad`
-  receipts : List (Option Rcpt)      -- `nil` elements possible
+  txs      : List (Option (Tx × Bool))  -- `none`: the zero value `Transaction{}`; else transaction, `bad`
+  receipts : List (Option Rcpt)         -- `nil` elements possible
   diffs    : List (Option Diff)
+
+/-- the scalar fields of a full block that `validate()` looks at -/
+structure RawMeta where
+  ident        : String
+  statusOk     : Bool   -- `Status == "PRE_CONFIRMED"`
+  version      : String
+  timestamp    : Nat
+  hasSequencer : Bool   -- `SequencerAddress != nil`
+  hasL1Gas     : Bool
+  hasL2Gas     : Bool
+  hasL1DataGas : Bool
+
+/-- `starknet.PreConfirmedUpdateEnvelope.Update` -/
+inductive RawEnvelope
+  | noChange
+  | delta (ident : String) (u : RawUpdate)
+  | block (m : RawMeta) (u : RawUpdate)
+
+/-- `validateTxsLength(txs, receipts, stateDiffs)` (`true` = no error) -/
+def validateTxsLength (u : RawUpdate) : Bool :=
+  if u.txs.length != u.receipts.length || u.txs.length != u.diffs.length then false
+  else (List.range u.txs.length).all fun i =>
+    (u.txs[i]?.join).isSome && (u.receipts[i]?.join).isSome && (u.diffs[i]?.join).isSome
+
+/-- `(*PreConfirmedUpdateEnvelope).Validate()` with the `validate()` methods of the variants -/
+def RawEnvelope.validate : RawEnvelope → Bool
+  | .noChange => true
+  | .delta ident u =>
+    if ident == "" then false
+    else if u.txs.length == 0 then false
+    else validateTxsLength u
+  | .block m u =>
+    if m.ident == "" then false
+    else if !m.statusOk then false
+    else if m.version == "" then false
+    else if m.timestamp == 0 then false
+    else if !m.hasSequencer then false
+    else if !m.hasL1Gas then false
+    else if !m.hasL2Gas then false
+    else if !m.hasL1DataGas then false
+    else validateTxsLength u
 
 inductive RawOutcome
   | ok (ws : List WireTx)
@@ -209,13 +252,15 @@ inductive RawOutcome
   | panics                            -- index out of range / nil dereference in the writer goroutine
 
 /-- the per-index accesses of `AdaptPreConfirmedBlock` / `AdaptPreConfirmedWithDelta`, in order:
-`AdaptTransaction(txs[i])`, `AdaptStateDiff(diffs[i])`, `receipts[i]` and `.Events` of it -/
+`AdaptTransaction(txs[i])` (the zero-valued transaction has type `Invalid`: an error),
+`AdaptStateDiff(diffs[i])`, `receipts[i]` and `.Events` of it -/
 def zipRaw (u : RawUpdate) : RawOutcome :=
   go u.txs 0 []
 where
-  go : List (Tx × Bool) → Nat → List WireTx → RawOutcome
+  go : List (Option (Tx × Bool)) → Nat → List WireTx → RawOutcome
     | [], _, acc => .ok acc.reverse
-    | (tx, bad) :: rest, i, acc =>
+    | none :: _, _, _ => .adaptError
+    | some (tx, bad) :: rest, i, acc =>
       if bad then .adaptError
       else match u.diffs[i]? with
         | some (some d) =>
@@ -223,6 +268,16 @@ where
           | some (some rc) => go rest (i + 1) ({ tx := tx, bad := false, rcpt := rc, diff := d } :: acc)
           | _ => .panics
         | _ => .panics
+
+/-- what the adapter does with an envelope: the loop, then (full block only) the header, which
+dereferences `response.L1GasPrice` -/
+def RawEnvelope.adapt : RawEnvelope → RawOutcome
+  | .noChange => .ok []
+  | .delta _ u => zipRaw u
+  | .block m u =>
+    match zipRaw u with
+    | .ok ws => if m.hasL1Gas then .ok ws else .panics
+    | o => o
 
 /-! ## sequencer mode: the view over the block under construction
 
